@@ -5,7 +5,7 @@ from schnorrlib import *
 from rangelib import *
 
 RULE = ("library provers run under a scripted RNG (every draw named and recovered order-free from the served tape): "
-        "commitment proofs in G1 and G2, signature-request proofs, signature proofs, N in {1,2,3,5,8,13}, messages over "
+        "commitment proofs in G1 and G2, signature-request proofs, signature proofs, N in {1,2,3,5,8,13,17,34}, messages over "
         "the edge set and random, a subset of slots given caller-chosen commitment scalars (all subsets for N<=3, random "
         "otherwise), each case arranged to instantiate one documented pattern (partial opening, equality within / across "
         "proofs, secret sum, public addition, public product); range constraints over {0,1,127,128,128^k-1,128^k,2^63-1,"
@@ -14,7 +14,7 @@ RULE = ("library provers run under a scripted RNG (every draw named and recovere
 TRUSTED = ["theorems C10_* over an arbitrary field / all integers; correspondence ops: cp_prove, srp_prove, sp_prove, "
            "rc_prove, rcl_prove and the matching verifiers"]
 ASSUMPTIONS = []
-NS = [1, 2, 3, 5, 8, 13]
+NS = [1, 2, 3, 5, 8, 13, 17, 34]
 
 
 def masks(run, rng, n):
@@ -69,21 +69,42 @@ def run(run, h):
             request_case(run, h, pts, batch, rng, key, mask)
             signature_case(run, h, pts, batch, rng, key, mask)
         across_case(run, h, pts, rng, key)
+        for dg in ("identity_commitment", "identity_scalar_commitment", "both"):
+            DEGENERATE[0] = dg
+            mask = rng.choice(masks(run, rng, n))
+            for grp in (1, 2):
+                commitment_case(run, h, pts, batch, rng, grp, n, mask)
+            request_case(run, h, pts, batch, rng, key, mask)
+            run.count("degenerate honest proof: " + dg, 3)
+        DEGENERATE[0] = None
     vals = VALUES + [rng.randrange(2 ** 63) for _ in range(3 if run.tier == "quick" else 30)]
     for i, v in enumerate(vals):
         range_case(run, h, pts, batch, rng, rp, v, linked=(i % 2 == 0))
     batch.flush()
 
 
+DEGENERATE = [None]   # set by run(): None | "identity_commitment" | "identity_scalar_commitment" | "both"
+
+
 def draw_inputs(rng, n, mask):
     ms = [rand_scalar(rng, 0.5) for _ in range(n)]
+    if DEGENERATE[0] in ("identity_commitment", "both"):
+        ms = [0] * n
     given = {i: rand_scalar(rng, 0.2) for i, ch in enumerate(mask) if ch == "1"}
+    if DEGENERATE[0] in ("identity_scalar_commitment", "both"):
+        given = {i: 0 for i in given}
     return ms, given
 
 
 def tape_for(rng, n, mask, extra=0):
+    """the scripted draws; in the degenerate runs the blinding factor and / or every commitment scalar is 0, so that the
+    commitment C and / or the scalar commitment T of the honest proof is the identity element"""
     bf, kbf = rand_scalar(rng, 0.15), rand_scalar(rng, 0.15)
     fresh = [rand_scalar(rng, 0.15) for ch in mask if ch == "0"]
+    if DEGENERATE[0] in ("identity_commitment", "both"):
+        bf = 0
+    if DEGENERATE[0] in ("identity_scalar_commitment", "both"):
+        kbf, fresh = 0, [0] * len(fresh)
     return bf, kbf, fresh, [rand_nz(rng) for _ in range(extra)]
 
 
